@@ -46,6 +46,7 @@ def gen_result(rng, kinds_pool, n_ext):
     spec["ext"] = [float(np.round(rng.uniform(0, 1000), int(rng.integers(0, 4)))) if rng.random() < 0.8 else 0.0 for _ in range(n_ext)]
     r = rng.random()       # a generating set at zero power reports a load of exactly 0.0
     spec["load"] = None if r < 0.25 else (0.0 if r < 0.4 else float(np.round(rng.uniform(0, 1), 3)))
+    spec["load_repr"] = str(rng.choice(["float", "array1"], p=[0.6, 0.4]))      # a single-point calculation reports the load as a one-element array
     if rng.random() < 0.25:
         spec["emis"] = None
     else:
@@ -80,7 +81,10 @@ def build_result(spec, names):
             detail = pd.DataFrame({"y": [float(i) / 2 for i in spec["detail"]]}, index=idx)
         else:
             detail = pd.DataFrame({"row_id": spec["detail"], "x": [float(i) for i in spec["detail"]]}, index=idx)
-    return FEEMSResult(duration_s=spec["duration"], load_ratio_genset=spec["load"], total_emission_kg=emis,
+    load = spec["load"]
+    if load is not None and spec.get("load_repr") == "array1":
+        load = np.array([load], dtype=float)
+    return FEEMSResult(duration_s=spec["duration"], load_ratio_genset=load, total_emission_kg=emis,
                        detail_result=detail, multi_fuel_consumption_total_kg=FuelConsumption(fuels=fuels),
                        co2_emission_total_kg=GHGEmissions(*spec["co2"]), **kw)
 
